@@ -21,6 +21,8 @@ type Ctx struct {
 	P    *prog.Program
 	R    *oblig.Report
 	Tier string
+
+	anchors map[*ssa.Function]bool // functions the rules name: analysed modularly, never inlined
 }
 
 // Prop is a registered property.
@@ -53,6 +55,10 @@ func (c *Ctx) Fn(rule, name string) *ssa.Function {
 		c.R.Unknown(rule, "anchor:"+name, "-", "anchor function "+name+" not found in the program")
 		return nil
 	}
+	if c.anchors == nil {
+		c.anchors = map[*ssa.Function]bool{}
+	}
+	c.anchors[fn] = true
 	return fn
 }
 
@@ -94,6 +100,19 @@ func (c *Ctx) StdFunc(rule, qual string) *ssa.Function {
 
 // Walk enumerates the paths of fn, accounting for them in the report. Overflow is undecided.
 func (c *Ctx) Walk(rule string, fn *ssa.Function, visit func(p *walk.Path)) {
+	c.walk(rule, fn, 2, visit)
+}
+
+// WalkShallow enumerates the paths of fn alone (no inlining): for enumeration-style rules that judge
+// each function against its own results.
+func (c *Ctx) WalkShallow(rule string, fn *ssa.Function, visit func(p *walk.Path)) {
+	c.walk(rule, fn, 0, visit)
+}
+
+// noInlinePkgs: callees that never carry facts and only multiply paths.
+var noInlinePkgs = map[string]bool{"pkg/logger": true, "pkg/app/pagewriter": true, "pkg/validation": true}
+
+func (c *Ctx) walk(rule string, fn *ssa.Function, inline int, visit func(p *walk.Path)) {
 	if fn == nil {
 		return
 	}
@@ -101,7 +120,30 @@ func (c *Ctx) Walk(rule string, fn *ssa.Function, visit func(p *walk.Path)) {
 	if c.Tier == "thorough" {
 		w.MaxVisit = 3 // two trips round every loop instead of one
 	}
+	w.InlineDepth = inline
+	w.Inline = func(callee *ssa.Function) bool {
+		// helpers are explored inline so that facts established inside them count; functions the rules
+		// name (anchors) keep their own contract and are analysed modularly
+		if c.anchors[callee] || noInlinePkgs[prog.Short(prog.FnPkg(callee).Path())] {
+			return false
+		}
+		switch callee.Name() {
+		case "ErrorPage", "SignInPage", "errorJSON", "String":
+			return false
+		}
+		return true
+	}
+	w.MaxPaths = 60000
 	w.Run(visit)
+	if w.Overflow && inline > 0 {
+		// too many interprocedural paths: fall back to the function alone
+		c.R.Notes = append(c.R.Notes, "path cap reached with inlining in "+prog.Name(fn)+": re-analysed without inlining")
+		w = walk.New(c.P, fn)
+		if c.Tier == "thorough" {
+			w.MaxVisit = 3
+		}
+		w.Run(visit)
+	}
 	c.R.Funcs[prog.Name(fn)] = true
 	c.R.Paths += w.Paths
 	c.R.Pruned += w.Pruned
@@ -196,6 +238,25 @@ func HasLast(p *walk.Path, at int, n Need) (walk.Call, bool) {
 // ResultIs reports whether dv is result idx of call c on this path.
 func ResultIs(p *walk.Path, dv walk.DV, c walk.Call, idx int) bool {
 	return p.Key(dv) == p.ResultKey(c.DV(), idx)
+}
+
+// sameValueOrSlot: the two values are the same value, or loads of the same memory slot (same address
+// expression: same base value, same index/field) — e.g. routes[i] evaluated twice.
+func sameValueOrSlot(p *walk.Path, a, b walk.DV) bool {
+	if p.Same(a, b) {
+		return true
+	}
+	ra, rb := p.Resolve(a), p.Resolve(b)
+	ua, ok1 := ra.V.(*ssa.UnOp)
+	ub, ok2 := rb.V.(*ssa.UnOp)
+	if !ok1 || !ok2 || ua.Op != token.MUL || ub.Op != token.MUL {
+		return false
+	}
+	switch ua.X.(type) {
+	case *ssa.IndexAddr, *ssa.FieldAddr:
+		return p.Key(p.Op(ua.X, ra)) == p.Key(p.Op(ub.X, rb))
+	}
+	return false
 }
 
 // DefinitelyNil: the value is the nil constant on this path (after phi/cell resolution) or assumed nil.
